@@ -70,7 +70,7 @@ def gen_address(rng, files):
         bn = rng.choice([b for b in (0, 15, 16, 17, nel * 16 - 1, rng.randrange(nel * 16)) if b < nel * 16])   # only bits the file has
         return casing(rng, "B%d/%d" % (n, bn)), "bit", (t, n), bn // 16, bn % 16, 1
     base = "%s%s:%d" % (t, fnum, e)
-    if r < 0.35 and t not in ("F",):
+    if r < 0.35:
         b = rng.choice([0, 1, 7, 8, 15, rng.randrange(16)])
         return casing(rng, "%s/%d" % (base, b)), "bit", (t, n), e, b, 1
     if r < 0.6 and nel - e >= 2 and t not in ("S",):
@@ -263,8 +263,6 @@ def run(ctx, model):
                 v = [new_value(rng, t) for _ in range(cnt)]
             else:
                 v = new_value(rng, t)
-            if t == "F" and kind == "bit":
-                continue
             nframes = len(sock.frames)
             try:
                 w = core.with_budget(20, d.write, (tag, v))
@@ -334,6 +332,7 @@ def run(ctx, model):
     # transcript correspondence of SLCDriver.read / write with the Lean SLC driver (SlcDriver.lean), stream `slc-driver`
     from props import slcdrv
     slcdrv.run(ctx, model)
+    slcdrv.run_altered(ctx, model)
     outs = model.batch(lines) if lines else []
     for (stream, case, impl), out in zip(pend, outs):
         if core.norm_err(out) != core.norm_err(impl):
